@@ -772,6 +772,8 @@ inclGetLine(FILE *file)
 
 	bufStart(inclBuffer);
 	while ((c = osGetc(file)) != EOF) {
+		/* A NUL would end the line's string: keep a byte the scanner rejects. */
+		if (c == 0) c = 1;
 		bufAdd1(inclBuffer, c);
 		if (c == '\n') break;
 	}
